@@ -21,7 +21,10 @@ func newQueue(capacity uint) queue {
 		entries:   make([]any, capacity),
 		head:      -1,
 		tail:      -1,
-		readyChan: make(chan struct{}),
+		// buffered: a push that happens while the consumer is not (yet) waiting on ready()
+		// must leave its wake-up signal behind, otherwise the consumer can go to sleep
+		// with an entry in the queue
+		readyChan: make(chan struct{}, 1),
 	}
 }
 
